@@ -3,7 +3,7 @@ use crate::ast::*;
 use crate::rng::Rng;
 use crate::run::*;
 use crate::Ctx;
-use liquid_core::model::{Object, State, Value, ValueViewCmp};
+use liquid_core::model::{Object, State, Value, ValueView, ValueViewCmp};
 
 /// the ~30-value pool; `lit` = has a literal syntax
 pub fn pool() -> Vec<(&'static str, Value, bool)> {
@@ -136,6 +136,40 @@ pub fn run(ctx: &mut Ctx) {
     for e in [var("undefined"), path("obja", &["zz"]), path("undefined", &["x"]), path("arr1", &["first"]), path("sa", &["size"])] {
         for mode in [true, false] {
             case(ctx, &parser, "truthy-path", ite(Cond::Exist(e.clone()), mode), &data);
+        }
+    }
+    // 2b. the same bare test when an inner scope (loop variable, include / render argument) re-binds the
+    // root of the path with a value that lacks the member: the member of the OUTER value must not count
+    {
+        let mut d = Object::new();
+        let mut outer = Object::new();
+        outer.insert("featured".into(), Value::scalar(true));
+        outer.insert("tags".into(), Value::Array(vec![Value::scalar("t0")]));
+        d.insert("item".into(), Value::Object(outer));
+        let mk = |kvs: &[(&str, Value)]| {
+            let mut o = Object::new();
+            for (k, v) in kvs {
+                o.insert(k.to_string().into(), v.clone());
+            }
+            Value::Object(o)
+        };
+        d.insert("products".into(), Value::Array(vec![mk(&[("name", Value::scalar("a"))]), mk(&[("name", Value::scalar("b")), ("featured", Value::scalar(false))]), mk(&[("name", Value::scalar("c")), ("featured", Value::scalar(true))]), Value::scalar(7i64), Value::Nil]));
+        for probe in [path("item", &["featured"]), path("item", &["tags", "first"]), Expr::Var("item".into(), vec![lit_s("featured")]), path("item", &["tags"])] {
+            for mode in [true, false] {
+                let body = vec![Node::Cond { c: Cond::Exist(probe.clone()), mode, thn: vec![text("T")], els: Some(vec![text("F")]), elsif: false }];
+                let t = vec![Node::For { x: "item".into(), rng: RangeE::Arr(var("products")), limit: None, offset: None, rev: false, body, els: None }];
+                // reference: truthiness of the member of the LOOP element only
+                let want: String = ["a", "b", "c", "7", "nil"].iter().map(|n| {
+                    let truthy = match (*n, &probe) {
+                        ("c", Expr::Var(_, ix)) if ix.len() == 1 && !matches!(&ix[0], Expr::Lit(v) if v.to_kstr() == "tags") => true,
+                        _ => false,
+                    };
+                    if truthy == mode { 'T' } else { 'F' }
+                }).collect();
+                let obs = render_text(&parser, &src_tmpl(&t), &d);
+                let k = match &obs { Obs::Ok(s) if *s == want => "shadow-path".to_string(), _ => format!("SHADOWPATH:want={}", crate::proto::hex(&want)) };
+                ctx.emit(render_case("c06", &k, &t, &d, &[], &obs));
+            }
         }
     }
     // 3. if/elsif chains of 1..4 arms under all truth assignments, with and without else; unless/else
